@@ -427,6 +427,13 @@ func corpus() []*jcase {
 			Steps: []jstep{{T: "create", Series: []int{0, 1}}, {T: "dropkeep", Series: []int{0}}, {T: "create", Series: []int{0}}, {T: "create", Series: []int{2}},
 				{T: "create", Series: []int{3}}, {T: "reopen"}, {T: "dropkeep", Series: []int{1}}, {T: "create", Series: []int{1}}, {T: "drop", Series: []int{3}}, {T: "create", Series: []int{3}}}})
 	}
+	// a history on which a late background Compact() once rolled the log in the middle of
+	// Partition.DropMeasurement (driver timing, see quiesce): many rolls and merges up to L4
+	out = append(out, &jcase{Gen: "corpus:deep-merges", Domain: []jseries{s("m1", "k0", "v0", "k1", "v0"), s("m2", "k0", "v0"), s("m0", "k0", "v2"),
+		s("m2", "k0", "v1", "k1", "v0"), s("m0", "k0", "v2", "k1", "v1"), s("m0", "k0", "v0"), s("m0", "k1", "v0"), s("m1")},
+		PartN: 1, MaxLog: 12, Cache: 0,
+		Steps: []jstep{{T: "create", Series: []int{5, 1}}, {T: "create", Series: []int{4, 6, 3}}, {T: "create", Series: []int{6}}, {T: "dropmeas", Meas: "m2"},
+			{T: "drop", Series: []int{6}}, {T: "drop", Series: []int{4}}, {T: "reopen"}, {T: "drop", Series: []int{5}}, {T: "create", Series: []int{3, 3}}, {T: "drop", Series: []int{3}}}})
 	// the same histories under the weak oracle must be clean, also with the cache and 8 partitions
 	for _, pn := range []int{1, 8} {
 		for _, cache := range []int{0, 100} {
